@@ -1295,6 +1295,14 @@ func (x *Exec) evalBuiltinSpec(ce *CEnv, name string, args []Expr) (*Val, bool) 
 		k := "G_" + id.Name
 		x.registerGhost(k)
 		return &Val{Typ: intT, T: x.getHeap(ce.st, k)}, true
+	case "gconst":
+		// gconst(name): a fixed but arbitrary integer (the same in every state): used
+		// to follow one arbitrary element (a cell, a pixel) through a computation
+		id, ok := args[0].(*EIdent)
+		if !ok {
+			cfail("gconst(name)")
+		}
+		return &Val{Typ: intT, T: x.b.Const("GC_"+id.Name, "Int")}, true
 	case "upred":
 		// upred("name", args...): an uninterpreted predicate (used by trusted contracts to
 		// pass facts between library functions, e.g. "the string has a non-space character")
